@@ -677,6 +677,12 @@ def check_pipeline(ctx):
             else:
                 raise AnalysisError(f"C10.7: cannot tell which transformer object `{short(vc, 50)}` is called on")
         elif not any(k.arg == "typechecker" and norm(k.value) == f"{f.params[0]}._typechecker" for k in recv.keywords):
+            own = f.cls.methods.get("__init__") if f.cls is not None else None
+            keeps = own is not None and any(isinstance(t_, ast.Attribute) and t_.attr == "_typechecker" for st_ in walk_scope(own.node) if isinstance(st_, ast.Assign) for t_ in st_.targets)
+            given = next((k.value for k in recv.keywords if k.arg == "typechecker"), None)
+            if not keeps and given is not None and isinstance(given, ast.Attribute) and norm(given).startswith(f"{f.params[0]}."):
+                raise AnalysisError(f"C10.7: the transformer is built with `{norm(given)}`; the loader no longer keeps its checker in `_typechecker` and the rule "
+                                    "cannot follow where that value comes from")
             ctx.bad("C10.7", f, vc, "the tree is not visited by JaxtypingTransformer(typechecker=self._typechecker)")
         # the compiled thing is the visited tree
     for st in ("parse", "compile"):
